@@ -48,6 +48,10 @@ SPEC = {
             "exactly the predicted cache misses | one more), per-frame delays from the case line (none | 30% up to 5 ms "
             "| 70% up to 200 ms | all up to 50 us; ARP frames included) = reordering of queries and replies; 9 of 10 on "
             "the paused current-thread runtime (exact oracle), 1 of 10 on Multi(1|2|4) (order-insensitive oracle); "
+            "one case in five: 2..4 ALMOST EQUAL names with different addresses (differing only in ASCII case, in "
+            "trailing dots, by being prefixes of each other, or in one byte of a non-ASCII character), resolved by the "
+            "same client one after the other and concurrently and then again from the cache: each lookup must "
+            "return the address of its own name and each first lookup must put its own query on the wire; "
             "12% hostile: a name without record is looked up, a registered name contains the delimiter, the server "
             "accepts one connection too few. Result = trace + ending (DONE | CRASH file:line:kind | HANG). "
             "distinct = distinct case line; non-trivial = run ended DONE",
